@@ -27,8 +27,12 @@ na = [{"property_id": pid, "reason": "check not built yet in this revision of /v
 man = {
     "version": 1,
     "setup_cmd": "./setup.sh",
-    "hooks": {"guard": "zk_elgamal_verif", "enable": "none needed: every observation goes through the public API (RUSTFLAGS='--cfg zk_elgamal_verif' reserved, unused)",
-              "baseline_off_cmd": "cd /repo && cargo test --workspace --no-fail-fast --offline", "source_commits": [], "add_only": True},
+    "hooks": {"guard": "cargo feature `verif-hooks` of solana-zk-sdk (off by default)",
+              "enable": "the harness depends on the SDK with features = [\"verif-hooks\"] (harness/Cargo.toml); the feature only adds "
+                        "transcript::verif_hooks, a per-thread log of the labels and values of every challenge drawn through "
+                        "TranscriptProtocol::challenge_scalar, read by the harness after each verification",
+              "baseline_off_cmd": "cd /repo && cargo test --workspace --no-fail-fast --offline",
+              "source_commits": ["25e18a1", "98bb0a7"], "add_only": True},
     "engines": [{"name": "lean4-model+correspondence", "path": "/verif/check",
                  "serves_properties": [c["property_id"] for c in checks],
                  "kind_free_text": "Lean 4 theorems over a generic executable model (lean/), tables regenerated from source by translate/translate.py, "
